@@ -179,12 +179,23 @@ def boxSum (o : Ops α) : List Nat → (List Nat → α) → α
   | [], F => F []
   | n :: ns, F => (List.range n).foldl (fun acc i => o.add acc (boxSum o ns (fun idx => F (i :: idx)))) o.zero
 
-/-- `normalize_template(g, w, n)`: `(g - μ_w)/σ_w · w` with mean / variance under the mask -/
-def normTemplate (o : Ops α) (ms : List Nat) (g w : List Int → α) (n : α) : List Int → α :=
+/-- mean and standard deviation of `g` under the mask `w` (`n` = Σ w): the scalars of `normalize_template` -/
+def normStats (o : Ops α) (ms : List Nat) (g w : List Int → α) (n : α) : α × α :=
   let mu := o.div (boxSum o ms (fun k => o.mul (g (natsToInts k)) (w (natsToInts k)))) n
   let ex2 := o.div (boxSum o ms (fun k => o.mul (o.sq (g (natsToInts k))) (w (natsToInts k)))) n
-  let sd := o.sqrt (o.max0 (o.sub ex2 (o.sq mu)))
-  fun x => o.mul (o.div (o.sub (g x) mu) sd) (w x)
+  (mu, o.sqrt (o.max0 (o.sub ex2 (o.sq mu))))
+
+/-- one voxel of the standardised template: `(g - μ)/σ · w` -/
+def normApply (o : Ops α) (st : α × α) (gx wx : α) : α := o.mul (o.div (o.sub gx st.1) st.2) wx
+
+/-- `normalize_template(g, w, n)`: `(g - μ_w)/σ_w · w` with mean / variance under the mask.
+(The score formulas below inline this as `normStats` + a local closure so that the compiled driver
+computes the two box sums once per call instead of once per voxel read.) -/
+def normTemplate (o : Ops α) (ms : List Nat) (g w : List Int → α) (n : α) : List Int → α :=
+  fun x => normApply o (normStats o ms g w n) (g x) (w x)
+
+/-- the standardised template given its (already computed) statistics — cheap, pointwise -/
+def normT (o : Ops α) (st : α × α) (g w : List Int → α) : List Int → α := fun x => normApply o st (g x) (w x)
 
 def maskSum (o : Ops α) (ms : List Nat) (w : List Int → α) : α := boxSum o ms (fun k => w (natsToInts k))
 
@@ -197,7 +208,8 @@ rotated — as in the code) -/
 def scoreCORR (o : Ops α) (C : (List Int → α) → (List Int → α) → α) (ms : List Nat)
     (rot : (List Int → α) → (List Int → α)) (f f2 g w : List Int → α) : α :=
   let n := maskSum o ms w
-  let gh := normTemplate o ms g w n
+  let st := normStats o ms g w n
+  let gh : List Int → α := normT o st g w
   let meanT := o.div (boxSum o ms (fun k => o.mul (gh (natsToInts k)) (w (natsToInts k)))) n
   let ssd := boxSum o ms (fun k => o.mul (o.sq (o.sub (gh (natsToInts k)) meanT)) (w (natsToInts k)))
   let vol := o.ofNat (prodL ms)
@@ -212,8 +224,10 @@ def scoreCORR (o : Ops α) (C : (List Int → α) → (List Int → α) → α) 
 def scoreFLCSph (o : Ops α) (C : (List Int → α) → (List Int → α) → α) (ms : List Nat)
     (rot : (List Int → α) → (List Int → α)) (f f2 g w : List Int → α) : α :=
   let n := maskSum o ms w
-  let gh := normTemplate o ms g w n
-  let ghR := normTemplate o ms (rot gh) w n
+  let st := normStats o ms g w n
+  let gh : List Int → α := normT o st g w
+  let stR := normStats o ms (rot gh) w n
+  let ghR : List Int → α := normT o stR (rot gh) w
   let e2 := o.div (C f2 w) n
   let e1 := o.sq (o.div (C f w) n)
   let sd := o.sqrt (o.max0 (o.sub e2 e1))
@@ -223,7 +237,8 @@ def scoreFLCSph (o : Ops α) (C : (List Int → α) → (List Int → α) → α
 def scoreFLC (o : Ops α) (C : (List Int → α) → (List Int → α) → α) (ms : List Nat)
     (f f2 G W : List Int → α) : α :=
   let n := maskSum o ms W
-  let gh := normTemplate o ms G W n
+  let st := normStats o ms G W n
+  let gh : List Int → α := normT o st G W
   let s1 := C f W
   let s2 := C f2 W
   let sd0 := o.sqrt (o.max0 (o.sub (o.div s2 n) (o.sq (o.div s1 n))))
@@ -234,7 +249,8 @@ def scoreFLC (o : Ops α) (C : (List Int → α) → (List Int → α) → α) (
 `(numerator, denominator, overlap)`; `G`, `W` rotated template and mask, `fm = f·[tm>0]` -/
 def mccParts (o : Ops α) (C : (List Int → α) → (List Int → α) → α) (ms : List Nat)
     (fm fm2 tm G W : List Int → α) : α × α × α :=
-  let gh := normTemplate o ms G W (maskSum o ms W)
+  let st := normStats o ms G W (maskSum o ms W)
+  let gh : List Int → α := normT o st G W
   let gh2 : List Int → α := fun x => o.sq (gh x)
   let t2 := C tm gh
   let num0 := C fm gh
@@ -255,4 +271,49 @@ def mccFinish (o : Ops α) (thousand ratio : α) (parts : α × α × α) (maxDe
   let s := if o.lt s (o.sub o.zero o.one) then o.sub o.zero o.one else if o.lt o.one s then o.one else s
   if o.lt ov (o.mul ratio maxOv) then o.zero else s
 
+end Pm.C01
+
+/-! ## Executable glue used by the driver -/
+namespace Pm.C01
+
+/-- materialise a template-side field on its box (identity on box-supported fields at in-box indices,
+see `ext_mat_inbox`); keeps the driver fast -/
+def matA {α} (ms : List Nat) (b : List Int → α) : Arr α :=
+  Arr.ofFn ms (fun k => b (natsToInts k))
+
+/-- periodic discrete Laplacian (`scipy.ndimage.laplace(mode="wrap")`) -/
+def lapWrap (a : Arr Int) : Arr Int :=
+  let d := a.shape.length
+  Arr.ofFn a.shape (fun idx =>
+    (List.range d).foldl (fun acc ax =>
+      let n := a.shape.getD ax 1
+      let i := idx.getD ax 0
+      let up := idx.set ax ((i + 1) % n)
+      let dn := idx.set ax ((i + n - 1) % n)
+      acc + a.getD up 0 + a.getD dn 0 - 2 * a.getD idx 0) 0)
+
+/-- all raw positions of the torus as integer multi-indices -/
+def torusIdx (Ns : List Nat) : List (List Int) := (allIdx Ns).map natsToInts
+
+end Pm.C01
+
+namespace Pm.C01
+/-- What `scipy.ndimage.affine_transform(order=3, prefilter=False)` does to an array on the grid (identity or
+any grid rotation): the samples are used as cubic B-spline *coefficients*, so every axis is filtered with
+`(1, 4, 1)/6`, mirrored at the edges (`x[-1] = x[1]`, `x[n] = x[n-2]`; an extent-1 axis is unchanged).
+pyTME transforms template *masks* this way ("data prefiltered, mask not"). -/
+def smoothAxis {α} (o : Ops α) (a : Arr α) (ax : Nat) : Arr α :=
+  let n := a.shape.getD ax 1
+  if n ≤ 1 then a else
+  Arr.ofFn a.shape (fun idx =>
+    let i := idx.getD ax 0
+    let up := if i + 1 < n then i + 1 else n - 2
+    let dn := if 1 ≤ i then i - 1 else 1
+    let x := a.getD idx o.zero
+    let xu := a.getD (idx.set ax up) o.zero
+    let xd := a.getD (idx.set ax dn) o.zero
+    o.div (o.add (o.mul (o.ofNat 4) x) (o.add xu xd)) (o.ofNat 6))
+
+def smooth3 {α} (o : Ops α) (a : Arr α) : Arr α :=
+  (List.range a.shape.length).foldl (fun acc ax => smoothAxis o acc ax) a
 end Pm.C01
